@@ -35,6 +35,7 @@ TPrec == {"d", "ld"}
 TMarker(p)      == IF p = "d" THEN "-0x1.81cd5c28f5c29p+13" ELSE "-0xc.0e6ae147ae148p+10"   \* -12345.67
 TSentinel(p)    == IF p = "d" THEN "-0x1.547ae147ae148p+0"  ELSE "-0xa.a3d70a3d70a4p-3"      \* -1.33
 TNoSuchParam(p) == IF p = "d" THEN "-0x1.4p+4"              ELSE "-0xap+1"                   \* -20
+TOne(p)         == IF p = "d" THEN "0x1p+0"                 ELSE "0x8p-3"                    \* 1
 TInitDflt ==
   [p \in TPrec |-> [n \in {Cat!Catalog[i].name : i \in 1..Len(Cat!Catalog)} |->
       LET e == Cat!Catalog[CHOOSE i \in 1..Len(Cat!Catalog) : Cat!Catalog[i].name = n]
@@ -53,10 +54,13 @@ TEvalAccept(p, sol, par, vec, fn, sig, args, cb, ret) ==
 TArgsRegular(sol, fn, sig, args) ==
   LET e == Cat!Catalog[CHOOSE i \in 1..Len(Cat!Catalog) : Cat!Catalog[i].name = sol]
       nd == IF e.dim > 3 THEN 3 ELSE e.dim
-  IN  args[3] = 1 => args[2] \in 1..nd
+  IN  /\ args[3] = 1 => args[2] \in 1..nd
+      \* C14 speaks of an INTERIOR point: every coordinate strictly positive (walls, the axis and t = 0 are
+      \* boundaries, where e.g. the wall-bounded solutions legitimately divide by the wall distance)
+      /\ \A i \in 1..Len(args[1]) : NLt(N0, NFromStr(args[1][i]))
 
 M == INSTANCE Masa WITH Prec <- TPrec, Catalog <- Cat!Catalog, Build <- TBuild,
-                        Marker <- TMarker, Sentinel <- TSentinel, NoSuchParam <- TNoSuchParam,
+                        Marker <- TMarker, Sentinel <- TSentinel, NoSuchParam <- TNoSuchParam, One <- TOne,
                         InitDflt <- TInitDflt, UseMemo <- ~Relaxed("MEMO"), EvalAccept <- TEvalAccept,
                         ArgsRegular <- TArgsRegular
 
